@@ -140,7 +140,7 @@ class MinMaxWeight(Quantizer):
         :return: a tuple containing respectively the min and the max.
         :rtype: Tuple[torch.Tensor, torch.Tensor]
         """
-        ch_max, _ = input.view(input.size(0), -1).abs().max(1)
+        ch_max, _ = input.reshape(input.size(0), -1).abs().max(1)
         ch_min = -1 * ch_max
         return ch_min, ch_max
 
@@ -153,8 +153,8 @@ class MinMaxWeight(Quantizer):
         :return: a tuple containing respectively the min and the max.
         :rtype: Tuple[torch.Tensor, torch.Tensor]
         """
-        ch_max, _ = input.view(input.size(0), -1).max(1)
-        ch_min, _ = input.view(input.size(0), -1).min(1)
+        ch_max, _ = input.reshape(input.size(0), -1).max(1)
+        ch_min, _ = input.reshape(input.size(0), -1).min(1)
         return ch_min, ch_max
 
     def __repr__(self):
